@@ -641,4 +641,90 @@ def payloadInDomain : Payload → Bool
     dictProps.all (fun d => match Ctx.get? kvs d with | some v => dictValInDomain v | none => true)
   | _ => true
 
+/-! ## Where the payloads come from: the parser as the process sees it
+
+    `Files` takes "what `load_yaml` produced for the file" as given. In the process that payload is the outcome
+    of ONE PASS over the texts of the files found, in look-up order, by whatever parser object(s) `load_yaml`
+    uses. A `TextLoader` is a parser with the HIDDEN STATE it may carry from one load to the next (`σ`: a parser
+    object kept on the `Config` instance or at module level, which remembers the `%YAML` directive of the last
+    document it read). "Every file's mapping is a function of its text alone" is `TextLoader.TextOnly` – an
+    ASSUMPTION about the code under test (the model does not contain ruamel.yaml): `Props/C20.lean` section 15
+    proves what follows from it and that it is load-bearing; the harness checks the assumption itself (stream
+    `rawyaml`: every file of a case is also loaded ALONE in a pristine process). -/
+
+structure TextLoader (σ τ : Type) where
+  init : σ
+  parse : σ → τ → Payload × σ
+
+/-- What the parser makes of a text in a process in which nothing was parsed before. -/
+def TextLoader.alone {σ τ : Type} (L : TextLoader σ τ) (t : τ) : Payload := (L.parse L.init t).1
+
+/-- THE ASSUMPTION: the payload of a file depends on its text alone, not on what was parsed before. -/
+def TextLoader.TextOnly {σ τ : Type} (L : TextLoader σ τ) : Prop := ∀ s t, (L.parse s t).1 = L.alone t
+
+/-- One pass over the texts of the files found (list order = look-up order = increasing precedence), the parser
+    state threaded through; `s` is the state the pass starts in (`L.init` for the first `init()` of a process,
+    whatever the previous pass left behind for a later one). -/
+def loadSeq {σ τ : Type} (L : TextLoader σ τ) : σ → List (String × τ) → List (String × Payload) × σ
+  | s, [] => ([], s)
+  | s, (p, t) :: rest => ((p, (L.parse s t).1) :: (loadSeq L (L.parse s t).2 rest).1, (loadSeq L (L.parse s t).2 rest).2)
+
+/-- Every file loaded alone in a pristine process. -/
+def loadAlone {σ τ : Type} (L : TextLoader σ τ) (ts : List (String × τ)) : List (String × Payload) :=
+  ts.map fun pt => (pt.1, L.alone pt.2)
+
+/-- The effective configuration as a function of the TEXTS: the object's settings overlaid by what one pass of
+    the parser (starting in state `s`) makes of the files found, lowest precedence first. -/
+def effective {σ τ : Type} (L : TextLoader σ τ) (st : ConfigState) (s : σ) (ts : List (String × τ)) : Outcome :=
+  applyAll st (loadSeq L s ts).1
+
+/-- Two `init()`s of one process: the second pass starts in the parser state the first one left. -/
+def effectiveTwice {σ τ : Type} (L : TextLoader σ τ) (st : ConfigState) (ts1 ts2 : List (String × τ)) : Outcome :=
+  match applyAll st (loadSeq L L.init ts1).1 with
+  | (st1, some e) => (st1, some e)
+  | (st1, none) => effective L st1 (loadSeq L L.init ts1).2 ts2
+
+/-! ### the smallest config text whose reading depends on parser state -/
+
+inductive YVer where
+  | v11
+  | v12
+  deriving DecidableEq, Repr, Inhabited
+
+/-- A yaml config text: an optional `%YAML` directive, top-level `key: plain-scalar` lines and the plain scalars
+    under `vars:`. -/
+structure CfgText where
+  directive : Option YVer
+  top : List (String × String)
+  vars : List (String × String)
+  deriving DecidableEq, Repr, Inhabited
+
+/-- How a plain scalar resolves: the readings the two yaml versions disagree on (1.1: `on`/`yes` True,
+    `off`/`no` False, `0777` octal 511, `1:30` sexagesimal 90, `1_000` 1000; 1.2: `0777` decimal 777, `0o17` 15),
+    anything else the string. -/
+def resolveY : YVer → String → Val
+  | .v11, "on" => .bool true
+  | .v11, "yes" => .bool true
+  | .v11, "off" => .bool false
+  | .v11, "no" => .bool false
+  | .v11, "0777" => .int 511
+  | .v12, "0777" => .int 777
+  | .v11, "1:30" => .int 90
+  | .v11, "1_000" => .int 1000
+  | .v12, "0o17" => .int 15
+  | _, s => .str s
+
+def parseCfg (v : YVer) (t : CfgText) : Payload :=
+  .mapping (t.top.map (fun kv => (kv.1, resolveY v kv.2)) ++
+    (if t.vars.isEmpty then [] else [("vars", .dict (t.vars.map fun kv => (.str kv.1, resolveY v kv.2)))]))
+
+/-- `load_yaml` as it is: a parser object per call, which starts at yaml 1.2. -/
+def perCallParser : TextLoader Unit CfgText :=
+  ⟨(), fun _ t => (parseCfg (t.directive.getD .v12) t, ())⟩
+
+/-- One parser object for every load: a directive sets the version, a document without one is read by whatever
+    version the parser was left in. -/
+def stickyParser : TextLoader YVer CfgText :=
+  ⟨.v12, fun s t => (parseCfg (t.directive.getD s) t, t.directive.getD s)⟩
+
 end Pypyr.Config
